@@ -93,11 +93,39 @@ def probe_doc(mp, rng):
         return None
     else:
         return None
+    # where an element stands is nothing to the mapping that describes it: the probe runs also stand inside w:hyperlink, a HYPERLINK
+    # field, w:ins, w:smartTag, w:sdt; the probe blocks (and the paragraphs of the probe runs) inside table cells of body and header
+    # rows, block-level w:sdt, text boxes, footnotes and endnotes (harness/matchprobe.py); matching element and decoys alike
+    import matchprobe as MP
+    notes = {"footnote": [], "endnote": []}
+    placed, nwrap = [], 0
+    for blk in paras:
+        if blk[0] == "w:p" and rng.random() < 0.5:
+            inl = []
+            for c in blk[2]:
+                nodes = [c]
+                if c[0] == "w:r" and rng.random() < 0.7:
+                    for kind in [rng.choice(MP.RUN_WRAPS) for _ in range(rng.choice([1, 1, 2]))]:
+                        nwrap += 1
+                        nodes = MP.wrap_inline(kind, nodes, nwrap)
+                inl.extend(nodes)
+            blk[2] = inl
+        blks = [blk]
+        if rng.random() < 0.4:
+            in_note = False
+            for kind in [rng.choice(MP.BLOCK_WRAPS) for _ in range(rng.choice([1, 1, 2]))]:
+                if kind in notes:
+                    if in_note:
+                        continue        # a note cited only from inside a note is never written out (outside the grammar)
+                    in_note = True
+                blks = MP.wrap_blocks(kind, blks, notes)
+        placed.extend(blks)
+    paras = placed
     lv = lambda fmt: [el("w:lvl", [("w:ilvl", str(i))], [el("w:numFmt", [("w:val", fmt)])]) for i in range(12)]
     numbering = el("w:numbering", [], [el("w:abstractNum", [("w:abstractNumId", "0")], lv("decimal")), el("w:abstractNum", [("w:abstractNumId", "1")], lv("bullet")),
                                        el("w:num", [("w:numId", "1")], [el("w:abstractNumId", [("w:val", "0")])]), el("w:num", [("w:numId", "2")], [el("w:abstractNumId", [("w:val", "1")])])])
     parts = [{"name": "word/document.xml", "xml": el("w:document", [], [el("w:body", [], paras)])},
-             {"name": "word/styles.xml", "xml": el("w:styles", [], styles)}, {"name": "word/numbering.xml", "xml": numbering}]
+             {"name": "word/styles.xml", "xml": el("w:styles", [], styles)}, {"name": "word/numbering.xml", "xml": numbering}] + MP.notes_parts(notes)
     return parts, probes
 
 
@@ -122,6 +150,32 @@ def run(out, tier, seed, model_ok):
         elif m is not None and "error" not in m and m != real:
             out.violation("the parser's result differs from the specification (Lean parser, proved correct on printed mappings: C06_read_print)",
                           {"kind": "mapping", "mapping": mp, "text": text}, expected=m, actual=real)
+    # layout: several mappings as ONE style-map text (one per line, LF / CR LF, blank, white-space and comment lines around them, with or
+    # without a final line end), half of them ending in a name whose last character matters at the edge of a line (an escaped backslash,
+    # `\\n`, `#`, a quote, an operator): the text reads back as exactly these mappings, in order, without a message
+    lrng = random.Random(seed * 7919 + 606)
+    lays = []
+    for i in range(common.deepen(1200 if tier == "quick" else 20000)):
+        mps = []
+        for _ in range(lrng.choice([1, 2, 2, 3, 3, 4, 5])):
+            mp = GS.gen_mapping(lrng, None, hostile=lrng.choice([0.0, 0.3, 0.6]))
+            if lrng.random() < 0.5:
+                GS.edge_mapping(lrng, mp)
+            while not GS.expressible(mp):
+                mp = GS.gen_mapping(lrng, None, hostile=0.3)
+            mps.append(mp)
+        lays.append((mps, GS.layout_text(lrng, [GS.print_mapping(mp, lrng if lrng.random() < 0.7 else None) for mp in mps])))
+    lmodels = run_driver([{"op": "stylemap", "text": t} for _, t in lays]) if model_ok else [None] * len(lays)
+    for (mps, text), m in zip(lays, lmodels):
+        exp = [GS.denote(mp) for mp in mps]
+        real = parse_real(text)
+        out.count(key="layout-" + text, nontrivial=len(mps) > 1)
+        if real["styles"] != exp or real["messages"]:
+            out.violation("a style map of %d mappings on lines of their own does not read back as the mappings it was printed from" % len(mps),
+                          {"kind": "layout", "mappings": mps, "text": text}, expected=exp, actual=real)
+        elif m is not None and "error" not in m and m != real:
+            out.violation("the reader's result on a style map of several lines differs from the specification (Lean readStyleMap)",
+                          {"kind": "layout", "mappings": mps, "text": text}, expected=m, actual=real)
     # meaning: probe documents with matching elements and one-feature-off decoys
     k = 400 if tier == "quick" else 6000
     done = 0
@@ -180,6 +234,11 @@ def run(out, tier, seed, model_ok):
                  "of its own, over documents in which paragraphs, runs and tables share style ids and names, highlights are coloured line / page / column and breaks of every "
                  "type occur; observation = for every character and every written break, in order, the set of mappings whose elements enclose it, against an independent "
                  "first-mapping-of-the-element's-own-kind reading, and the whole result against the Lean model")
+    out.rule += ("; style maps of 1-5 printed mappings laid out as one text (LF / CR LF / mixed, blank, white-space and comment lines - also comments ending in a backslash - "
+                 "around them, final line end or none), half of the mappings ending in a tag or class name whose last character matters at the edge of a line (an escaped "
+                 "backslash, \\n, #, quotes, operators): read back as exactly these mappings and as the Lean readStyleMap; the ensemble style maps in such layouts too; probe and "
+                 "ensemble documents hold their runs also inside w:hyperlink, HYPERLINK fields, w:ins, w:smartTag, w:sdt and their blocks inside cells of body and header "
+                 "rows, block-level w:sdt, text boxes, footnotes and endnotes")
     out.sample({"text": items[0][1], "mapping": items[0][0]})
     out.sample({"text": items[1][1]})
 
@@ -192,6 +251,11 @@ def replay(out, payload, model_ok):
         exp = GS.denote(case["mapping"])
         if real["styles"] != [exp] or real["messages"]:
             out.violation("the text of a mapping does not read back as the mapping it was printed from", case, expected=exp, actual=real)
+    elif case["kind"] == "layout":
+        real = parse_real(case["text"])
+        exp = [GS.denote(mp) for mp in case["mappings"]]
+        if real["styles"] != exp or real["messages"]:
+            out.violation("a style map of several lines does not read back as the mappings it was printed from", case, expected=exp, actual=real)
     elif case["kind"] == "api":
         import apicheck as A
         import matchprobe as MP
